@@ -1,12 +1,12 @@
 package verifsim
 
 import (
-	"google.golang.org/protobuf/types/dynamicpb"
 	"bufio"
 	"bytes"
 	"context"
 	"encoding/json"
 	"fmt"
+	"google.golang.org/protobuf/types/dynamicpb"
 	"io"
 	"net/http"
 	"runtime/debug"
@@ -671,6 +671,9 @@ func serverTask(st *rpcState, tr *vanguard.Transcoder) {
 		st.ServeSeq = w.Logf("server.return", "")
 		for _, b := range st.Backend {
 			st.CtxCancelledAtReturn = append(st.CtxCancelledAtReturn, b.Ctx != nil && b.Ctx.Err() != nil)
+		}
+		if st.rw.middleware != nil {
+			st.rw.middleware.drain() // the middleware's own deferred flush
 		}
 		st.served = true
 		st.rw.finish()
